@@ -34,7 +34,7 @@ func runC07(c *core.Ctx) {
 	c.Rule("C07.stop", "A2: ExecutingTask.stop: every node is stopped and waited for (walk callbacks that never return an error; stop before Wait), then et.wg.Wait(); walk visits every node of et.nodes in order")
 	c.Rule("C07.forklock", "A5 (must-hold lock set over go/cfg): every use of TaskMaster.forks/forkStats/taskToForkKeys, every method call on a value read out of forks (the fork edges: Collect in forkPoint, Close in delFork) and every call of a helper that needs the lock happens with tm.mu held on all paths reaching it; unexported methods without lock operations are helpers whose call sites carry the obligation; exported methods and function literals start without the lock")
 	c.Rule("C07.drainlock", "A5 (may-hold lock set over go/cfg + call graph with interface resolution inside alert and services/alert): no alert Service method calls, while Service.mu may be held, anything that reaches a WaitGroup.Wait for handler goroutines (Topics.DeleteTopic/Close/DeregisterHandler/ReplaceHandler, a handler's Close), as long as some handler's Handle/run reaches Service.Collect and Service.Collect takes Service.mu")
-	c.Rule("C07.stopwait", "A5/A6: F70, F46: nothing that runs on a node's goroutine (the function stored in node.runF and what is reachable from the functions of its file through static calls) calls a TaskMaster method that takes TaskMaster.mu, nor one that collects into the task master's own stream (whose consumer forkPoint needs TaskMaster.mu): StopTask/DeleteTask/Close hold that lock while they wait for the goroutine")
+	c.Rule("C07.stopwait", "A5/A6: F70, F46 (may-hold lock set over go/cfg + call graph): W = the TaskMaster mutexes that may be held at a call of ExecutingTask.stop (in the calling method or in a TaskMaster method that calls it). Nothing that runs on a node's goroutine (the function stored in node.runF and what is reachable from the functions of its file through static calls) calls a TaskMaster method that takes a mutex of W, nor one that collects into the task master's own stream when its consumer (runForking and what it reaches) needs a mutex of W")
 	c.Rule("C07.tm", "A2/A6: stopTask removes the task from tm.tasks and detaches it (delFork / delete batches) before et.stop(); delFork closes the fork edge with Close, never Abort; Close drains (Drain) before stopping tasks; StopTask/DeleteTask/StopTasks/Close hold tm.mu around stopTask")
 	c.Rule("C07.stopf", "A6 effect disjointness: for every node type that assigns node.stopF and whose run path reads an input edge, no object torn down by the stop function (Abort/Close/Stop/Kill method or close() on a field of the node) is used by the node's consuming path (run function, receiver callbacks, group receivers, transitively in the package); reviewed exceptions are verified structurally")
 	c.Rule("C07.sink", "A1/A2: InfluxDBOutNode: the write buffer is flushed and then aborted after the consumer returned (deferred after start() or placed after Consume), flush before abort; writeBuffer.run answers a flush request with writeAll and then the flushed signal; writeAll attempts every pending batch (no early exit) and forgets it; enqueue blocks on the queue unless the buffer is stopping (no default arm)")
@@ -54,6 +54,7 @@ func runC07(c *core.Ctx) {
 	c07Stop(c, root)
 	c07TM(c, root)
 	c07StopWait(c, root)
+	c07ProbeRules(c, root)
 	c07StopF(c, root)
 	c07Sink(c, root)
 	c07Tickers(c, root)
@@ -505,7 +506,7 @@ func c07TM(c *core.Ctx, pkg *packages.Package) {
 			return true
 		})
 		c.Check(drain != token.NoPos && stop != token.NoPos && drain < stop, "C07.tm", "TaskMaster.Close#drain-first", fn.Decl.Pos(), "Close must drain the forks (Drain) before it stops the tasks")
-		c09LoopNoExit(c, "C07.tm", "TaskMaster.Close#all-tasks", fn, info, ".tasks", "stopTask", nil)
+		c07AllTasks(c, pkg, "TaskMaster.Close#all-tasks", fn)
 	}
 	if fn := c.Need("C07.tm", "", "TaskMaster", "Drain"); fn != nil {
 		var wait, del token.Pos
@@ -543,8 +544,79 @@ func c07TM(c *core.Ctx, pkg *packages.Package) {
 		c.Check(stop != token.NoPos && hooks != token.NoPos && stop < hooks, "C07.tm", "TaskMaster.DeleteTask#stop-before-hooks", fn.Decl.Pos(), "DeleteTask must stop (drain) the task before it runs the delete hooks: the alert node's hook deletes its topic and handlers, and what the node still drains afterwards is collected into a topic without handlers — dropped silently")
 	}
 	if fn := c.Need("C07.tm", "", "TaskMaster", "StopTasks"); fn != nil {
-		c09LoopNoExit(c, "C07.tm", "TaskMaster.StopTasks#all-tasks", fn, info, ".tasks", "stopTask", nil)
+		c07AllTasks(c, pkg, "TaskMaster.StopTasks#all-tasks", fn)
 	}
+}
+
+// c07AllTasks: fn stops every task: a loop without early exit over tm.tasks, or over the result of a TaskMaster method that
+// returns every key of tm.tasks (a snapshot taken under the lock, so that the tasks can be stopped without it), calls stopTask.
+func c07AllTasks(c *core.Ctx, root *packages.Package, cons string, fn *core.Func) {
+	info := root.TypesInfo
+	suffix := ".tasks"
+	ast.Inspect(fn.Decl.Body, func(n ast.Node) bool {
+		rs, ok := n.(*ast.RangeStmt)
+		if !ok {
+			return true
+		}
+		call, ok := ast.Unparen(rs.X).(*ast.CallExpr)
+		if !ok || len(call.Args) != 0 {
+			return true
+		}
+		m := core.Callee(info, call)
+		if m == nil || core.RecvTypeName(m) != "TaskMaster" {
+			return true
+		}
+		var decl *core.Func
+		for _, f := range core.AllFuncs(root) {
+			if o, ok := info.Defs[f.Decl.Name].(*types.Func); ok && o == m {
+				decl = f
+			}
+		}
+		if decl == nil {
+			return true
+		}
+		// the method ranges over tm.tasks and appends every key to what it returns: no condition, no exit in the loop
+		all := false
+		ast.Inspect(decl.Decl.Body, func(k ast.Node) bool {
+			in, ok := k.(*ast.RangeStmt)
+			if !ok || !an.FieldSel(info, in.X, "TaskMaster", "tasks") || in.Key == nil {
+				return true
+			}
+			key, ok := in.Key.(*ast.Ident)
+			body := an.Effective(in.Body.List)
+			if !ok || len(body) != 1 {
+				return true
+			}
+			as, ok := body[0].(*ast.AssignStmt)
+			if !ok || len(as.Lhs) != 1 || len(as.Rhs) != 1 {
+				return true
+			}
+			ap, ok := as.Rhs[0].(*ast.CallExpr)
+			if !ok || !core.IsBuiltin(info, ap, "append") || len(ap.Args) != 2 {
+				return true
+			}
+			if id, ok := ap.Args[1].(*ast.Ident); !ok || info.Uses[id] != info.Defs[key] {
+				return true
+			}
+			dst := types.ExprString(as.Lhs[0])
+			if types.ExprString(ap.Args[0]) != dst {
+				return true
+			}
+			// … and that slice is what the method returns
+			ast.Inspect(decl.Decl.Body, func(r ast.Node) bool {
+				if ret, ok := r.(*ast.ReturnStmt); ok && len(ret.Results) == 1 && types.ExprString(ret.Results[0]) == dst {
+					all = true
+				}
+				return true
+			})
+			return true
+		})
+		if all {
+			suffix = "." + m.Name() + "()"
+		}
+		return true
+	})
+	c09LoopNoExit(c, "C07.tm", cons, fn, info, suffix, "stopTask", nil)
 }
 
 // c07StopF: effect disjointness between a node's stop function and its consuming path.
@@ -1187,9 +1259,10 @@ func c07StopWait(c *core.Ctx, root *packages.Package) {
 			byObj[o] = f
 		}
 	}
-	isTMMu := func(e ast.Expr) bool { return an.FieldSel(info, e, "TaskMaster", "mu") }
-	locks := map[*types.Func]bool{} // TaskMaster methods that take mu themselves
-	feeds := map[*types.Func]bool{} // TaskMaster methods that collect into the task master's own stream
+	// which TaskMaster mutexes each TaskMaster method takes itself, and which methods collect into the master's own stream
+	locks := map[*types.Func]map[string]bool{}
+	feeds := map[*types.Func]bool{}
+	tmCalls := map[*types.Func][]*types.Func{} // static calls between TaskMaster methods
 	for o, f := range byObj {
 		if core.RecvName(f.Decl) != "TaskMaster" {
 			continue
@@ -1199,16 +1272,103 @@ func c07StopWait(c *core.Ctx, root *packages.Package) {
 			if !ok {
 				return true
 			}
-			if sel, ok := call.Fun.(*ast.SelectorExpr); ok {
-				if (sel.Sel.Name == "Lock" || sel.Sel.Name == "RLock") && isTMMu(sel.X) {
-					locks[o] = true
+			if fld, op := mutexFieldOp(info, call, "TaskMaster"); fld != "" && op == "+" {
+				if locks[o] == nil {
+					locks[o] = map[string]bool{}
 				}
-				if sel.Sel.Name == "CollectPoint" && an.FieldSel(info, sel.X, "TaskMaster", "writePointsIn") {
-					feeds[o] = true
-				}
+				locks[o][fld] = true
+			}
+			if sel, ok := call.Fun.(*ast.SelectorExpr); ok && sel.Sel.Name == "CollectPoint" && an.FieldSel(info, sel.X, "TaskMaster", "writePointsIn") {
+				feeds[o] = true
+			}
+			if m := core.Callee(info, call); m != nil && byObj[m] != nil && core.RecvName(byObj[m].Decl) == "TaskMaster" {
+				tmCalls[o] = append(tmCalls[o], m)
 			}
 			return true
 		})
+	}
+	// W: the mutexes that may be held while the task master waits for a task's node goroutines (the calls of ExecutingTask.stop):
+	// held in the waiting function itself, or by a TaskMaster method that calls it (fixpoint over the callers)
+	entry := map[*types.Func]map[string]bool{}
+	held := map[string]bool{}
+	waitSites := 0
+	for round := 0; round < 8; round++ {
+		changed := false
+		for o, f := range byObj {
+			if core.RecvName(f.Decl) != "TaskMaster" {
+				continue
+			}
+			at := mayHoldAtCalls(info, f.Decl.Body, "TaskMaster", entry[o])
+			for call, st := range at {
+				m := core.Callee(info, call)
+				if m == nil {
+					continue
+				}
+				if m.Name() == "stop" && core.RecvTypeName(m) == "ExecutingTask" {
+					if round == 0 {
+						waitSites++
+					}
+					for k := range st {
+						held[k] = true
+					}
+				}
+				if byObj[m] != nil && core.RecvName(byObj[m].Decl) == "TaskMaster" {
+					if entry[m] == nil {
+						entry[m] = map[string]bool{}
+					}
+					for k := range st {
+						if !entry[m][k] {
+							entry[m][k] = true
+							changed = true
+						}
+					}
+				}
+			}
+		}
+		if !changed {
+			break
+		}
+	}
+	if waitSites == 0 {
+		c.Undecided("C07.stopwait", "anchor:ExecutingTask.stop", token.NoPos, "no TaskMaster method calls ExecutingTask.stop: the rule cannot see where the task master waits for the node goroutines")
+		return
+	}
+	// what the consumer of the master's own stream needs: the mutexes taken by runForking and the TaskMaster methods it reaches
+	need := map[string]bool{}
+	var fork *types.Func
+	for o, f := range byObj {
+		if core.RecvName(f.Decl) == "TaskMaster" && f.Decl.Name.Name == "runForking" {
+			fork = o
+		}
+	}
+	if fork == nil {
+		c.Undecided("C07.stopwait", "anchor:TaskMaster.runForking", token.NoPos, "the consumer of the task master's own stream was not found")
+		return
+	}
+	{
+		seen := map[*types.Func]bool{fork: true}
+		work := []*types.Func{fork}
+		for len(work) > 0 {
+			o := work[0]
+			work = work[1:]
+			for k := range locks[o] {
+				need[k] = true
+			}
+			for _, m := range tmCalls[o] {
+				if !seen[m] {
+					seen[m] = true
+					work = append(work, m)
+				}
+			}
+		}
+	}
+	inter := func(a map[string]bool) string {
+		for _, k := range an.SortedKeys(a) {
+			if held[k] {
+				return k
+			}
+		}
+		return ""
 	}
 	// entry points: functions stored into node.runF
 	var entries []*types.Func
@@ -1270,16 +1430,23 @@ func c07StopWait(c *core.Ctx, root *packages.Package) {
 			o := work[0]
 			work = work[1:]
 			for _, cl := range calls[o] {
-				if locks[cl.to] || feeds[cl.to] {
-					what := "takes TaskMaster.mu"
-					if feeds[cl.to] {
-						what = "writes into the task master's own stream, whose consumer (forkPoint) needs TaskMaster.mu"
+				mu, what := "", ""
+				if k := inter(locks[cl.to]); k != "" {
+					mu, what = k, "takes TaskMaster."+k
+				} else if feeds[cl.to] {
+					if k := inter(need); k != "" {
+						mu, what = k, "writes into the task master's own stream, whose consumer (runForking/forkPoint) needs TaskMaster."+k
 					}
+				}
+				if mu != "" {
 					cons := node + "→TaskMaster." + cl.to.Name()
 					if !reported[cons] {
 						reported[cons] = true
-						c.Fail("C07.stopwait", cons, cl.pos, "code that runs on the goroutine of a %s calls TaskMaster.%s, which %s; StopTask/DeleteTask/Close hold TaskMaster.mu while they wait for that goroutine: the stop never returns (and, holding the lock, stalls the fan-out and every other stop)", node, cl.to.Name(), what)
+						c.Fail("C07.stopwait", cons, cl.pos, "code that runs on the goroutine of a %s calls TaskMaster.%s, which %s; the task master may hold TaskMaster.%s while it waits for that goroutine (ExecutingTask.stop under StopTask/DeleteTask/StopTasks/Close): the stop never returns (and, holding the lock, stalls the fan-out and every other stop)", node, cl.to.Name(), what, mu)
 					}
+					continue
+				}
+				if locks[cl.to] != nil || feeds[cl.to] {
 					continue
 				}
 				if byObj[cl.to] != nil && !seen[cl.to] && core.RecvName(byObj[cl.to].Decl) != "TaskMaster" {
@@ -1290,7 +1457,7 @@ func c07StopWait(c *core.Ctx, root *packages.Package) {
 		}
 	}
 	if len(reported) == 0 {
-		c.Ok("C07.stopwait", "nodes#no-call-needs-tm.mu")
+		c.Ok("C07.stopwait", "nodes#no-call-needs-a-held-mutex")
 	}
-	c.Note("C07.stopwait: TaskMaster methods that take mu: %d, that feed the master's stream: %d; node entry points: %d", len(locks), len(feeds), n)
+	c.Note("C07.stopwait: mutexes that may be held while the task master waits for node goroutines: %v (wait sites %d); the stream consumer needs %v; TaskMaster methods that take a mutex: %d, that feed the master's stream: %d; node entry points: %d", an.SortedKeys(held), waitSites, an.SortedKeys(need), len(locks), len(feeds), n)
 }
